@@ -272,13 +272,17 @@ func checks() map[string]CheckDef {
 		Runs: []HRun{
 			{Pkg: "internal/zzverif/c14", Func: "HarnessRoundTrip", Quick: [][]int64{{0, 0}, {0, 1}, {0, 2}, {1, 0}, {1, 1}, {1, 2}, {2, 0}, {2, 1}, {2, 2}, {3, 0}, {3, 1}, {3, 2}, {4, 0}, {4, 1}, {4, 2}, {5, 0}, {5, 1}, {5, 2}, {6, 0}, {6, 1}, {6, 2}, {7, 0}, {7, 1}, {7, 2}, {8, 0}, {8, 1}, {8, 2}, {9, 0}, {9, 1}, {9, 2}, {10, 0}, {10, 1}, {10, 2}, {11, 0}, {11, 1}, {11, 2}, {12, 0}, {12, 1}, {12, 2}, {13, 0}, {13, 1}, {13, 2}, {14, 0}, {14, 1}, {14, 2}, {15, 0}, {15, 1}, {15, 2}}, Thorough: [][]int64{{0, 0}, {0, 1}, {0, 2}, {0, 3}, {0, 4}, {1, 0}, {1, 1}, {1, 2}, {1, 3}, {1, 4}, {2, 0}, {2, 1}, {2, 2}, {2, 3}, {2, 4}, {3, 0}, {3, 1}, {3, 2}, {3, 3}, {3, 4}, {4, 0}, {4, 1}, {4, 2}, {4, 3}, {4, 4}, {5, 0}, {5, 1}, {5, 2}, {5, 3}, {5, 4}, {6, 0}, {6, 1}, {6, 2}, {6, 3}, {6, 4}, {7, 0}, {7, 1}, {7, 2}, {7, 3}, {7, 4}, {8, 0}, {8, 1}, {8, 2}, {8, 3}, {8, 4}, {9, 0}, {9, 1}, {9, 2}, {9, 3}, {9, 4}, {10, 0}, {10, 1}, {10, 2}, {10, 3}, {10, 4}, {11, 0}, {11, 1}, {11, 2}, {11, 3}, {11, 4}, {12, 0}, {12, 1}, {12, 2}, {12, 3}, {12, 4}, {13, 0}, {13, 1}, {13, 2}, {13, 3}, {13, 4}, {14, 0}, {14, 1}, {14, 2}, {14, 3}, {14, 4}, {15, 0}, {15, 1}, {15, 2}, {15, 3}, {15, 4}},
 				Labels: []string{"C14/encoded-message-decodes", "C14/decode-encode-is-identity-on-messages", "C14/reencoding-reproduces-the-bytes"}},
+			{Pkg: "internal/zzverif/c14", Func: "HarnessLargeLists", Quick: [][]int64{{0, 1001}, {1, 1001}, {2, 1001}, {3, 2000}, {3, 2001}, {4, 500}, {4, 501}, {5, 1000}, {5, 1001}}, Thorough: [][]int64{{0, 50000}, {0, 50001}, {1, 50000}, {2, 50000}, {3, 1999}, {5, 999}},
+				Labels: []string{"C14/list-beyond-the-limit-is-refused-when-built"}},
 			{Pkg: "internal/wire", Func: "HarnessVarInt", Labels: []string{"C14/varint-round-trip", "C14/only-canonical-varints-accepted", "C14/varint-size"}},
 			{Pkg: "internal/wire", Func: "HarnessFraming", Quick: [][]int64{{4}}, Thorough: [][]int64{{4}, {8}},
 				Labels: []string{"C14/accepted-frame-has-our-magic", "C14/accepted-frame-has-known-command", "C14/accepted-frame-length-within-limits", "C14/accepted-frame-checksum-matches", "C14/wrong-magic-rejected", "C14/unknown-command-rejected", "C14/oversize-length-rejected", "C14/frame-allocations-bounded"}},
+			{Pkg: "internal/wire", Func: "HarnessCommandField",
+				Labels: []string{"C14/accepted-command-field-is-a-known-name-with-nul-padding", "C14/accepted-frame-has-known-command"}},
 			{Pkg: "internal/wire", Func: "HarnessDecode", Unwind: 200, Quick: [][]int64{{0, 12}, {1, 12}, {2, 12}, {3, 12}, {4, 12}, {5, 12}, {6, 12}, {7, 12}, {8, 12}, {9, 12}, {10, 12}, {11, 12}, {12, 12}, {13, 12}, {14, 12}, {15, 12}, {16, 12}, {17, 12}, {18, 12}, {19, 12}, {20, 12}, {21, 12}, {28, 12}, {29, 12}}, Thorough: [][]int64{{0, 12}, {0, 28}, {0, 40}, {1, 12}, {1, 28}, {1, 40}, {2, 12}, {2, 28}, {2, 40}, {3, 12}, {3, 28}, {3, 40}, {4, 12}, {4, 28}, {4, 40}, {5, 12}, {5, 28}, {5, 40}, {6, 12}, {6, 28}, {6, 40}, {7, 12}, {7, 28}, {7, 40}, {8, 12}, {8, 28}, {8, 40}, {9, 12}, {10, 12}, {10, 28}, {10, 40}, {11, 12}, {11, 28}, {11, 40}, {12, 12}, {12, 28}, {12, 40}, {13, 12}, {13, 28}, {13, 40}, {14, 12}, {14, 28}, {14, 40}, {15, 12}, {15, 28}, {15, 40}, {16, 12}, {16, 28}, {16, 40}, {17, 12}, {17, 28}, {17, 40}, {18, 12}, {18, 28}, {18, 40}, {19, 12}, {19, 28}, {19, 40}, {20, 12}, {20, 28}, {20, 40}, {21, 12}, {21, 28}, {21, 40}, {28, 12}, {28, 28}, {28, 40}, {29, 12}, {29, 28}, {29, 40}},
 				Labels: []string{"C14/decoder-allocations-bounded-by-payload-limit", "C14/command-table-complete"}},
 		},
-		Bounds:  []string{"round trip: each of the 16 message kinds with every field symbolic, list sizes / string lengths n (quick n<=2, thorough n<=4), IPv4 addresses in Go's 4-byte and 16-byte forms and nil, on 8 protocol versions (each class of the codec's version tests and its boundaries)", "varint: all 2^64 values; all 9-byte inputs", "framing: arbitrary magic, length, checksum (the right one or any wrong one); command in {ping, headers, verack (empty payload), unknown}; n payload bytes (quick 4, thorough 8); lengths either within the supplied bytes or above the global maximum", "decoders: every command of the table except the six compact-filter ones, arbitrary payloads of 12 (quick) / up to 40 (thorough) bytes (tx: 12 bytes in both tiers - its decoder does not finish within 5 minutes on 20 bytes), 4 protocol versions"},
+		Bounds:  []string{"round trip: each of the 16 message kinds with every field symbolic, list sizes / string lengths n (quick n<=2, thorough n<=4), IPv4 addresses in Go's 4-byte and 16-byte forms and nil, on 8 protocol versions (each class of the codec's version tests and its boundaries)", "varint: all 2^64 values; all 9-byte inputs", "list-carrying messages (inv, getdata, notfound, headers, getheaders locator, addr) at realistic sizes: 1001 elements and the protocol limit of the kind (thorough: 50000 inv vectors), first and last element arbitrary, the rest concrete - exact round trip up to the limit, refusal of one element more", "command field: 12 arbitrary ASCII bytes (below 0x80) with our magic, empty payload and its checksum: accepted only if exactly a known command name followed by NUL padding (compact-filter names excluded)", "framing: arbitrary magic, length, checksum (the right one or any wrong one); command in {ping, headers, verack (empty payload), unknown}; n payload bytes (quick 4, thorough 8); lengths either within the supplied bytes or above the global maximum", "decoders: every command of the table except the six compact-filter ones, arbitrary payloads of 12 (quick) / up to 40 (thorough) bytes (tx: 12 bytes in both tiers - its decoder does not finish within 5 minutes on 20 bytes), 4 protocol versions"},
 		Outside: []string{"SHA-256 (uninterpreted: the checksum that is compared is the hash of the payload that was read)", "the compact-filter messages getcfilters/getcfheaders/getcfcheckpt/cfilter/cfheaders/cfcheckpt (their decoders go through encoding/binary's reflection path; not among the kinds the statement lists)", "frames whose length lies between the supplied bytes and the global maximum with a wrong magic/command (discardInput then loops length/10240 times over a dead reader: long but finite)", "payloads longer than the bound: a count guard that is missing is already visible with a 9-byte payload, since the allocation is made before the elements are read", "natively 'allocation' is the total allocated since the start of the decode (an upper bound of the largest single allocation the executor tracks)"},
 		Stubs:   []string{"bytes, io, encoding/binary, unicode/utf8 executed from source", "net.IP To4/To16/Equal modelled on byte vectors", "an allocation larger than the harness's allocation view is represented by its first view+1 elements"},
 	})
